@@ -421,3 +421,126 @@ def no_exception_retention(ctx):
         bad = [b for b in stores_of_exception(fn) if not any(a in b[1] for a in allowed)]
         ctx.check(f"{q}:no-caught-exception-is-bound-beyond-its-except-clause", bool(not bad), info=f"{rel}: {bad}")
     return "ok"
+
+
+# ---------------------------------------------------------------------------------------------------------------------
+# bounded stand-in for C16 on the real uberjob.run: results are collectable as soon as their last consumer has finished
+# ---------------------------------------------------------------------------------------------------------------------
+C16_SCRIPT = """
+import gc, sys, threading, weakref
+import uberjob
+problems = []
+class Big:
+    def __init__(self, tag): self.tag = tag
+def run_case(name, build, **kw):
+    refs = {}
+    def make(tag):
+        def f(*a, **k):
+            b = Big(tag); refs[tag] = weakref.ref(b); return b
+        f.__name__ = "make_" + tag; return f
+    def use(tag, *dead, alive=()):
+        # a call that runs AFTER the consumers of the values named in `dead` have finished: those values must be gone by now
+        def f(*a, **k):
+            for d in dead:
+                if refs[d]() is not None: problems.append(f"{name}: result '{d}' is still alive although its last consumer has finished (checked at the start of '{tag}')")
+            for d in alive:
+                if refs[d]() is None: problems.append(f"{name}: result '{d}' was dropped although a consumer ('{tag}' or later) still needs it")
+            return tag
+        f.__name__ = "use_" + tag; return f
+    plan = uberjob.Plan()
+    out = build(plan, make, use)
+    r = uberjob.run(plan, output=out, progress=None, **kw)
+    return r
+def chain(plan, make, use):
+    a = plan.call(make("a")); b = plan.call(use("b", alive=("a",)), a); c = plan.call(use("c", "a"), b); return c
+def diamond(plan, make, use):
+    a = plan.call(make("a")); l = plan.call(use("l", alive=("a",)), a); r = plan.call(use("r", alive=("a",)), x=a)
+    j = plan.call(use("j"), l, r); z = plan.call(use("z", "a"), j); return z
+def gathered(plan, make, use):
+    a = plan.call(make("a")); b = plan.call(make("b")); g = plan.call(use("g", alive=("a", "b")), [a, {"k": b}]); z = plan.call(use("z", "a", "b"), g); return z
+def output_kept(plan, make, use):
+    a = plan.call(make("a")); b = plan.call(use("b", alive=("a",)), a); z = plan.call(use("z", alive=("a",)), b); return [a, z]     # a is part of the output: kept
+def dependency_only(plan, make, use):
+    a = plan.call(make("a")); b = plan.call(use("b", alive=("a",)), a); c = plan.call(use("c", "a")); plan.add_dependency(b, c); return c
+flaky = {"n": 0}
+def with_retry(plan, make, use):
+    a = plan.call(make("a"))
+    def consume(x):
+        flaky["n"] += 1
+        if flaky["n"] == 1: raise ValueError("first attempt fails")
+        return "consumed"
+    b = plan.call(consume, a); c = plan.call(use("c", "a"), b); return c
+# a consumer that FAILS while the run goes on (max_errors=None, another call failed first): its argument must be released all the same
+import operator, time
+def failing_case(name, kind, workers, sched):
+    refs = {}; first_failed = threading.Event(); consumer_done = threading.Event()
+    class Quit(BaseException): pass
+    def make():
+        b = Big("a"); refs["a"] = weakref.ref(b); return b
+    def first_fail():
+        first_failed.set(); raise ValueError("unrelated first failure")
+    def consume_py(x):
+        first_failed.wait(5); time.sleep(0.05)
+        try:
+            raise (Quit() if kind == "base" else KeyError("consumer fails"))
+        finally:
+            consumer_done.set()
+    def late():
+        consumer_done.wait(5)
+        t0 = time.time()
+        while refs["a"]() is not None and time.time() - t0 < 2: time.sleep(0.01)
+        if refs["a"]() is not None: problems.append(f"{name}: the argument of a consumer that failed ({kind}) is still alive 2 s after the failure, while the run goes on")
+        return "late"
+    plan = uberjob.Plan()
+    a = plan.call(make); f0 = plan.call(first_fail)
+    if kind == "c-level":
+        def gate(): first_failed.wait(5); time.sleep(0.05); consumer_done.set(); return 0
+        c = plan.call(operator.getitem, a, plan.call(gate))       # TypeError raised by C code: no python frame of the consumer holds the argument
+    else:
+        c = plan.call(consume_py, a)
+    l = plan.call(late)
+    try: uberjob.run(plan, output=[c, l, f0], progress=None, max_workers=workers, scheduler=sched, max_errors=None)
+    except uberjob.CallError: pass
+gc.disable()      # strict reading: freed by reference counting, not at some later cyclic collection
+for workers in (3,):
+    for sched in ("default", "random"):
+        for kind in ("exception", "base", "c-level"):
+            failing_case(f"failing-consumer[{kind},workers={workers},{sched}]", kind, workers, sched)
+for workers in (1, 3):
+    for sched in ("default", "random"):
+        for name, build in (("chain", chain), ("diamond", diamond), ("gathered", gathered), ("output_kept", output_kept), ("dependency_only", dependency_only)):
+            run_case(f"{name}[workers={workers},{sched}]", build, max_workers=workers, scheduler=sched)
+        flaky["n"] = 0
+        run_case(f"with_retry[workers={workers},{sched}]", with_retry, max_workers=workers, scheduler=sched, retry=2)
+for p in problems[:6]: print("C16 violated:", p)
+print(len(problems), "problem(s)"); sys.exit(1 if problems else 0)
+"""
+
+
+def _replay16(ob=None):
+    import os
+    import subprocess
+
+    from ujvc.z3env import REPO_SRC
+
+    p = subprocess.run(["/venv/bin/python", "-c", C16_SCRIPT], env=dict(os.environ, PYTHONPATH=REPO_SRC), capture_output=True, text=True, timeout=300)
+    return {"reproduced": p.returncode == 1, "detail": (p.stdout + p.stderr)[-3000:], "script": C16_SCRIPT, "rc": p.returncode}
+
+
+def _c16_bounded(ctx):
+    """bounded: real uberjob.run on six plan shapes (chain, diamond with keyword edge, gathered structure, value in the output, plain dependency, retried consumer) x 1, 3 workers x both schedulers; weak references checked from inside later calls"""
+    r = _replay16()
+    if r["rc"] not in (0, 1):
+        ctx.unsupported("release probe did not run: " + r["detail"][-600:])
+    ctx.check("bounded/release-probe-ran", True, info=r["detail"][-1500:])
+    ctx.check("bounded/every-result-is-collectable-once-its-last-consumer-has-finished(and-kept-while-needed-or-part-of-the-output)", bool(r["rc"] != 1), info=r["detail"][-2500:])
+    return "ok"
+
+
+unit("runphys.release[bounded]", props=["C16"],
+     functions=[(REL, "prep_run_physical.<locals>.process"), (REL, "prep_run_physical"), (REL, "run_physical"), (REL, "_create_bound_call_lookup_and_output_slot"), (REL, "_create_bound_call"),
+                (REL, "BoundCall.run"), (REL, "BoundCall.__init__"), ("_util/retry.py", "create_retry")],
+     assumptions=["bounded stand-in: six plan shapes + a failing consumer (Exception / BaseException / C-level) while the run goes on; strict reading: the cyclic collector is disabled, results must be freed by reference counting"],
+     min_obligations=2, kind="bounded")(_c16_bounded)
+
+REPLAYS = [("runphys.release*", _replay16), ("runphys.no-exception-retention*", _replay16), ("runphys.process/call:bound-call-released*", _replay16)] + list(globals().get("REPLAYS", []))
